@@ -234,6 +234,8 @@ def run(ctx):
         okb = norm(b.get(pos[0])) == "self.decoder" and norm(b.get(pos[1])) == "self._header" and norm(b.get(pos[2])) == "self.codec"
         ctx.check("C05.R2", f"{init.qualname}: generator started with the reader's decoder, header and codec", okb, init.where(call), f"{init.qualname}: {norm(call)[:80]}", "the block loop is not driven by this reader's decoder / decoded header / header codec")
 
+    ctx.borrow("C07", {"C07.R5": "C05.R9"}, "blocks appended to an existing file are framed with the codec and sync marker its header names: the layout is read back by other implementations from the header alone", only=lambda o: any(k in o.get("instance", "") for k in ("block_writer", "sync_marker", "write_header")))
+
     # ---- R3 codec default ----------------------------------------------------------
     ctx.rule("C05.R3", "every read of metadata key 'avro.codec' tolerates absence with 'null'", floor=2)
     n_sites = 0
